@@ -6,14 +6,16 @@ VERIF = os.path.dirname(os.path.dirname(os.path.abspath(__file__)))
 TB = ("Coq 8.16.1 kernel (full .vo build, vm_compute for finite sweeps/witnesses, no native_compute); "
       "extraction with ExtrOcamlBasic only + driver.ml; Python harness encoders; JAX/NumPy primitives are modelled "
       "(Base/JaxIndex.v) and tied by correspondence; PRNG is an oracle. Theorems closed under the global context unless "
-      "the evidence lists an axiom.")
+      "the evidence lists an axiom. Source translators (harness/translators/*_src.py, time_limit.py, rubik_tables.py) are trusted to "
+      "transcribe the syntax they recognise and for the meaning they give to the JAX/Python constructs that occur (stated in the header "
+      "of each generated file and in DESIGN.md 8); they fail closed.")
 CLAIMED = {
     "C19": dict(
         text="Theorems for every pytree (any structure, leaf shapes, batch size, index): slice(transpose ts) i = ts[i], "
              "add_element changes index i only, structure/dtype/shape preserved, equality helper reflexive (no NaN)/symmetric/exact, "
              "assert-different iff equal. Model (Base/Tree.v) is hand-written and tied to jumanji.tree_utils / testing.pytrees by "
-             "differential correspondence through the extracted model on random nests and real environment states.",
-        ref="DESIGN.md §5 C19", tech="Coq proof (induction over leaf lists) + extracted-model correspondence"),
+             "differential correspondence through the extracted model on random nests and real environment states. The three tree_utils helpers and is_equal_pytree / the two assertions are ALSO translated from the source on every run (Gen/TreeSrc.v) and proved equal to the model; the round-trip laws are restated on the translated code (C19_Source.v).",
+        ref="DESIGN.md §5 C19", tech="source translation (Python ast -> Gallina, regenerated every run) + Coq proof (induction over leaf lists) + extracted-model correspondence"),
 }
 CLAIMED["C16"] = dict(
     text="Theorems over arbitrary (nested) specs, shapes, dtypes, scalar/per-element broadcast bounds: generate_value is valid; "
@@ -31,12 +33,12 @@ CLAIMED["C01"] = dict(
 CLAIMED["C03"] = dict(
     text="Protocol predicates first_ok/step_ok (Base/TimeStep.v) are evaluated by the extracted model on every timestep of every rollout of "
          "all 23 environments, including steps after LAST; for modelled environments the model's step is built from restart/transition/"
-         "termination/truncation and satisfies them by proof.",
-    ref="DESIGN.md §5 C03", tech="Coq-verified protocol checker on implementation traces + constructor lemmas", note=_ENV_NOTE)
+         "termination/truncation and satisfies them by proof. jumanji/types.py (StepType, first/mid/last, restart/transition/termination/truncation) is translated from the source on every run (Gen/TimeStepSrc.v) and proved to be the model's constructors (C03_Source.v).",
+    ref="DESIGN.md §5 C03", tech="source translation of types.py + Coq-verified protocol checker on implementation traces + constructor lemmas", note=_ENV_NOTE)
 CLAIMED["C04"] = dict(
     text="Per environment (all 21 environments with a mask): theorem mask = legal for every state satisfying the reachable invariant and every action "
          "(invariant proved at reset and preserved by steps), model tied to the code by replaying every transition in the extracted model; verified "
-         "legal_b evaluated on implementation states; every action of small spaces tried on the real environment (its own reaction).",
+         "legal_b evaluated on implementation states; every action of small spaces tried on the real environment (its own reaction). Maze and SlidingTilePuzzle: the mask function is translated from the source on every run and the mask theorem is restated on the translated code (C04_Maze_Source.v, C04_SlidingTile_Source.v).",
     ref="DESIGN.md §5 C04", tech="Coq proof (invariant + mask_iff_legal) + extracted-model correspondence", note=_ENV_NOTE)
 CLAIMED["C05"] = dict(
     text="Per environment: theorem that an illegal action has exactly the documented effect; tied by correspondence on rollouts that inject "
@@ -52,18 +54,18 @@ CLAIMED["C08"] = dict(
     ref="DESIGN.md §5 C08", tech="Coq proof by induction over episodes + return recomputation on implementation episodes", note=_ENV_NOTE)
 CLAIMED["C09"] = dict(
     text="The Impl model of each modelled environment predicts every transition (state, reward, step type) of the real environment on all "
-         "catalogued configurations; theorems characterise the Impl model by the declarative rules.",
-    ref="DESIGN.md §5 C09", tech="extracted-model correspondence (every transition) + refinement theorems", note=_ENV_NOTE)
+         "catalogued configurations; theorems characterise the Impl model by the declarative rules. For Maze and SlidingTilePuzzle the WHOLE step / mask / observation / reward / reset code is translated from the source on every run (Gen/MazeSrc.v, Gen/SlidingTileSrc.v) and proved equal to the hand model, so their theorems hold of the code as written (C09_Maze_Source.v, C09_SlidingTile_Source.v).",
+    ref="DESIGN.md §5 C09", tech="source translation of two whole environments + extracted-model correspondence (every transition) + refinement theorems", note=_ENV_NOTE)
 CLAIMED["C10"] = dict(
     text="Generators modelled over explicit draws; well-formedness proved for every draw; verified checkers on every reset state of the rollouts.",
     ref="DESIGN.md §5 C10", tech="Coq proof over all draws + verified checker on reset states", note=_ENV_NOTE)
 CLAIMED["C11"] = dict(
     text="Extracted limit_ok decides, for every episode of every time-limited configuration (limits 1,2,3,7,default,None), that the first LAST is "
          "exactly at the limit unless the same keys/actions on an instance with a larger limit end at the same step (other cause); structural "
-         "horizons checked for the others; horizon/time-limit theorems per modelled environment.",
-    ref="DESIGN.md §5 C11", tech="Coq-verified limit checker + differential other-cause oracle + horizon theorems", note=_ENV_NOTE)
+         "horizons checked for the others; horizon/time-limit theorems per modelled environment. The time-limit wiring of the 12 environments with a time_limit argument (default, `self.time_limit = ...` with Python or/None semantics, the comparison ending the episode) and the MultiCVRP / FlatPack horizon comparisons are translated from the source on every run (Gen/TimeLimitSrc.v); C11_Wiring.v proves, for every limit value, that an explicit limit is the one used, the documented defaults, the `>=` test, and equality with the hand models' wiring.",
+    ref="DESIGN.md §5 C11", tech="source translation of the limit wiring (all values of the limit) + Coq-verified limit checker + differential other-cause oracle + horizon theorems", note=_ENV_NOTE)
 CLAIMED["C12"] = dict(
-    text="Observation = documented view of the state: proved per modelled environment, compared field by field on every transition.",
+    text="Observation = documented view of the state: proved per modelled environment, compared field by field on every transition. Maze: `_observation_from_state` translated from the source on every run (C12_Maze_Source.v).",
     ref="DESIGN.md §5 C12", tech="Coq proof + field-wise correspondence of observations", note=_ENV_NOTE)
 
 CLAIMED["C02"] = dict(
@@ -85,26 +87,26 @@ CLAIMED["C13"] = dict(
          "are relayed unchanged; a LAST step returns reset(left half of split(terminal state.key)) with the terminal step's type/reward/discount/extras; "
          "next_obs holds the true successor observation of every step; successive reset keys are pairwise distinct under the key discipline. Tied to "
          "wrappers.py by running the REAL wrapper on all 23 environments against the extracted model instantiated with tables of the native "
-         "environment's behaviour (decoy keys included).",
-    ref="DESIGN.md §5 C13", tech="Coq proof generic in the environment + table-oracle correspondence of the real wrapper")
+         "environment's behaviour (decoy keys included). AutoResetWrapper (and add_obs_to_extras) is ALSO translated from the source of wrappers.py on every run (Gen/WrappersSrc.v) and proved equal to the model for every environment; the central theorems are restated on the translated code (C13_Source.v).",
+    ref="DESIGN.md §5 C13", tech="source translation of wrappers.py (regenerated every run) + Coq proof generic in the environment + table-oracle correspondence of the real wrapper")
 CLAIMED["C14"] = dict(
     text="Theorems generic in the environment: VmapWrapper is pointwise the unwrapped environment; VmapAutoResetWrapper = VmapWrapper(AutoResetWrapper) "
          "for every batch and every subset of episodes ending together; both render element 0. jax.vmap/lax.map = map is the modelled semantics, tied "
          "by running both real wrappers and per-instance execution on identical desynchronised batches (none/some/all ending) on all 23 environments "
-         "and by the extracted batch model over native tables.",
-    ref="DESIGN.md §5 C14", tech="Coq proof generic in the environment + differential/table-oracle correspondence")
+         "and by the extracted batch model over native tables. VmapWrapper and VmapAutoResetWrapper are ALSO translated from the source on every run (Gen/WrappersSrc.v): C14_Source.v proves the translated classes equal to the model and VmapAutoResetWrapper = map2 of the translated AutoResetWrapper step.",
+    ref="DESIGN.md §5 C14", tech="source translation of wrappers.py (regenerated every run) + Coq proof generic in the environment + differential/table-oracle correspondence")
 CLAIMED["C15"] = dict(
     text="Adapters modelled as a state machine {key; state} over Seed/Reset/Reset(seed)/Step: gym relay = native run under the documented key schedule, "
          "terminated = zero discount, truncated = LAST, re-seeding reproduces the episode, dm_env first step has no reward/discount, MultiToSingle "
          "changes only reward/discount (all proved generically); valid => member of the converted gym space / dm spec and gym samples valid (C16 "
-         "theorems). Tied by driving the real adapters with op histories on all environments against the extracted model over native tables.",
-    ref="DESIGN.md §5 C15", tech="Coq proof of the adapter state machine + table-oracle correspondence; gymnasium/dm_env are modelled, not verified")
+         "theorems). Tied by driving the real adapters with op histories on all environments against the extracted model over native tables. MultiToSingleWrapper is also translated from the source on every run and proved equal to the model (C15_Source.v); the gym / dm_env adapters are stateful objects and stay hand-modelled.",
+    ref="DESIGN.md §5 C15", tech="source translation of MultiToSingleWrapper + Coq proof of the adapter state machine + table-oracle correspondence; gymnasium/dm_env are modelled, not verified")
 CLAIMED["C17"] = dict(
     text="RubiksCube: move tables are TRANSLATED from the source on every run (Gen/RubikTables.v); for every cube size and depth every move is a "
          "permutation, cw/acw cancel, half = two quarters, four quarters = identity, is_solved exact, flatten/unflatten inverse, every scrambled or "
          "played cube solvable; equality with the physical layer rotation is proved by kernel computation for n in 2..7. SlidingTile: for every n, "
          "moves are blank swaps or identity, tiles conserved, opposite moves cancel, solved test exact, every reset/played state solvable. Both tied "
-         "by correspondence (entire 2x2 / 3x3 sliding state spaces in the thorough tier; all moves and move pairs of cubes 2..7).",
+         "by correspondence (entire 2x2 / 3x3 sliding state spaces in the thorough tier; all moves and move pairs of cubes 2..7). SlidingTile's `_move_empty_tile` is also translated from the source on every run and the group laws are restated on the translated move (C17_SlidingTile_Source.v).",
     ref="DESIGN.md §5 C17", tech="Coq proof for all sizes over source-translated tables + finite kernel computation for the geometric part + correspondence")
 CLAIMED["C18"] = dict(
     text="Theorems over all id strings (ASCII alphabet) and all register/make histories: parse/format round trip, soundness of parse, rejection of "
